@@ -47,6 +47,9 @@ def _vector(rng, i):
         a = rng.normal(loc, sc, n)
         if n >= 2:
             a[rng.random(n) < 0.15] = np.nan
+        if 2 <= n <= 12 and rng.random() < 0.5:
+            a[:] = np.nan
+            a[int(rng.integers(0, n))] = loc          # NaN everywhere but one value: the estimators see a single value
     elif kind == 6:
         a = np.sort(rng.normal(loc, sc, n))                          # sorted / monotone
     elif kind == 7:
@@ -59,9 +62,15 @@ def _vector(rng, i):
 def _weights(rng, n, i):
     k = (i // 9) % 4
     if k == 0:
-        return np.full(n, float(rng.choice([1.0, 0.5, 3.0])))
+        # equal weights, also values whose sums are not exact in binary (0.1 * 6 != 0.6 to the last bit)
+        return np.full(n, float(rng.choice([1.0, 0.5, 3.0, 0.1, 0.3, 0.7, 1 / 3, 0.93])))
     if k == 1:
-        return rng.uniform(0.05, 1.0, n)
+        w = rng.uniform(0.05, 1.0, n)
+        if n >= 4 and rng.random() < 0.3:
+            # the two halves of the sorted data nearly -- not exactly -- balanced: the median is NOT the midpoint of two values
+            w = np.ones(n)
+            w[int(rng.integers(0, n))] -= float(rng.choice([1e-6, 1e-8, 1e-10]))
+        return w
     if k == 2:
         w = rng.uniform(0.05, 1.0, n)
         w[int(rng.integers(0, n))] = float(w.sum() * rng.choice([0.6, 1.0, 5.0]))
